@@ -19,45 +19,95 @@ theorem cb_empty : CB St.empty :=
   ⟨by intro n T h; simp [St.empty] at h, by intro n T h; simp [St.empty] at h⟩
 
 /-- the filled skeleton after the final substitution respects the input skeleton -/
-theorem Pre.respects {ctx : Ctx} (hctx : ctx.NoInternal) {ic isc : List (String × Ty)} (τ : List Ty)
-    {t t' : Skel} (h : Pre ctx ic isc t t') (hann : t.AnnotNoInternal) :
+theorem Pre.respects {ctx : Ctx} {ic isc : List (String × Ty)} (τ : List Ty)
+    {t t' : Skel} (h : Pre ctx ic isc t t') :
     Respects ctx (fun n => ((ic.lookup n).getD default).substI τ) (fun n => ((isc.lookup n).getD default).substI τ)
       t (t'.substI τ) := by
   induction h with
-  | varAnn n A =>
-    simp only [Skel.substI, Option.map_some, Ty.substI_of_noInt τ A (hann A rfl)]
+  | varAnn n A hA =>
+    simp only [Skel.substI, Option.map_some, Ty.substI_of_noInt τ A hA]
     exact .varAnn n A
-  | varDecl n T hd =>
-    simp only [Skel.substI, Option.map_some, Ty.substI_of_noInt τ T (hctx.1 n T hd)]
+  | varDecl n T hd hT =>
+    simp only [Skel.substI, Option.map_some, Ty.substI_of_noInt τ T hT]
     exact .varDecl n T hd
   | varInc n T hd hi =>
     simp only [Skel.substI, Option.map_some]
     have := Respects.varFree (ctx := ctx) (vt := fun n => ((ic.lookup n).getD default).substI τ)
       (svt := fun n => ((isc.lookup n).getD default).substI τ) n hd
     simpa [hi] using this
-  | svarAnn n A =>
-    simp only [Skel.substI, Option.map_some, Ty.substI_of_noInt τ A (hann A rfl)]
+  | svarAnn n A hA =>
+    simp only [Skel.substI, Option.map_some, Ty.substI_of_noInt τ A hA]
     exact .svarAnn n A
-  | svarDecl n T hd =>
-    simp only [Skel.substI, Option.map_some, Ty.substI_of_noInt τ T (hctx.2 n T hd)]
+  | svarDecl n T hd hT =>
+    simp only [Skel.substI, Option.map_some, Ty.substI_of_noInt τ T hT]
     exact .svarDecl n T hd
   | svarInc n T hd hi =>
     simp only [Skel.substI, Option.map_some]
     have := Respects.svarFree (ctx := ctx) (vt := fun n => ((ic.lookup n).getD default).substI τ)
       (svt := fun n => ((isc.lookup n).getD default).substI τ) n hd
     simpa [hi] using this
-  | constAnn n A =>
-    simp only [Skel.substI, Option.map_some, Ty.substI_of_noInt τ A (hann A rfl)]
+  | constAnn n A hA =>
+    simp only [Skel.substI, Option.map_some, Ty.substI_of_noInt τ A hA]
     exact .constAnn n A
   | constSig n S m hs hst =>
     simp only [Skel.substI, Option.map_some, inst_substI m τ S hst]
     exact .constSig n S _ hs
-  | comb _ _ ih1 ih2 => exact .comb (ih1 hann.1) (ih2 hann.2)
-  | absAnn x A _ ih =>
-    simp only [Skel.substI, Option.map_some, Ty.substI_of_noInt τ A (hann.1 A rfl)]
-    exact .absAnn x A (ih hann.2)
-  | absNew x T _ ih => exact .absNew x _ (ih hann.2)
+  | constDef n D m hd hD =>
+    simp only [Skel.substI, Option.map_some, instS_substI m τ D hD]
+    exact .constDef n D _ hd
+  | comb _ _ ih1 ih2 => exact .comb ih1 ih2
+  | absAnn x A hA _ ih =>
+    simp only [Skel.substI, Option.map_some, Ty.substI_of_noInt τ A hA]
+    exact .absAnn x A ih
+  | absNew x T _ ih => exact .absNew x _ ih
   | bound i => exact .bound i
+
+/-- giving the head constant its declared type and then respecting the result respects the original -/
+theorem Respects.of_setHead {ctx : Ctx} {vt svt : String → Ty} {D : Ty} :
+    ∀ {l l' : Skel} {n : String}, l.headConst = some (n, none) → ctx.defs.lookup n = some D →
+      Respects ctx vt svt (l.setHead D) l' → Respects ctx vt svt l l' := by
+  intro l
+  induction l with
+  | comb f a ihf _ =>
+    intro l' n hh hd h
+    simp only [Skel.setHead] at h
+    cases h with
+    | comb h1 h2 => exact .comb (ihf (by simpa [Skel.headConst] using hh) hd h1) h2
+  | const c T =>
+    intro l' n hh hd h
+    simp only [Skel.headConst, Option.some.injEq, Prod.mk.injEq] at hh
+    obtain ⟨rfl, rfl⟩ := hh
+    simp only [Skel.setHead] at h
+    cases h with
+    | constAnn _ _ =>
+      have := Respects.constDef (ctx := ctx) (vt := vt) (svt := svt) c D [] hd
+      rwa [instS_nil] at this
+  | svar n T => intro l' n hh; simp [Skel.headConst] at hh
+  | var n T => intro l' n hh; simp [Skel.headConst] at hh
+  | abs x T b _ => intro l' n hh; simp [Skel.headConst] at hh
+  | bound i => intro l' n hh; simp [Skel.headConst] at hh
+
+theorem Respects.of_applyDefs {ctx : Ctx} {vt svt : String → Ty} {t t0 t' : Skel}
+    (h0 : applyDefs ctx t = .ok t0) (h : Respects ctx vt svt t0 t') : Respects ctx vt svt t t' := by
+  simp only [applyDefs] at h0
+  split at h0
+  · cases h0; exact h
+  · split at h0
+    · rename_i T l r
+      split at h0
+      · rename_i n hh
+        split at h0
+        · rename_i D hd
+          split at h0
+          · cases h0
+          · cases h0
+            cases h with
+            | comb h1 h2 =>
+              cases h1 with
+              | comb h3 h4 => exact .comb (.comb h3 (Respects.of_setHead hh hd h4)) h2
+        · cases h0; exact h
+      · cases h0; exact h
+    · cases h0; exact h
 
 theorem BoundedS.fullyTyped {τ : List Ty} (hτ : ∀ j, j < τ.length → (τ.getD j (Ty.int j)).NoInt) :
     ∀ {t : Skel}, t.BoundedS τ.length → (t.substI τ).FullyTyped := by
@@ -78,16 +128,19 @@ theorem noInt_of_exit {T : Ty} (h : T.internals.any (fun v => !([] : List Nat).c
   | nil => exact hi
   | cons a l => simp [hi] at h
 
-theorem typeInfer_sound {ctx : Ctx} {fuel : Nat} {t t'' : Skel} (h : typeInfer ctx fuel true t = .ok t'')
-    (hctx : ctx.NoInternal) (hann : t.AnnotNoInternal) :
+theorem typeInfer_sound {ctx : Ctx} {fuel : Nat} {t t'' : Skel} (h : typeInfer ctx fuel true t = .ok t'') :
     (∃ T, checkedGetType t'' [] = some T) ∧ (∃ vt svt, Respects ctx vt svt t t'') ∧ t''.FullyTyped := by
   simp only [typeInfer] at h
-  cases hi : infer ctx fuel t [] St.empty with
+  cases h0 : applyDefs ctx t with
+  | error e => simp [h0] at h
+  | ok t0 =>
+  simp only [h0] at h
+  cases hi : infer ctx fuel t0 [] St.empty with
   | error e => simp [hi] at h
   | ok r =>
     obtain ⟨t', T, st⟩ := r
     simp only [hi, finish] at h
-    have post := infer_spec ctx hctx fuel t [] St.empty t' T st hi inv_empty cb_empty (by intro B hB; cases hB) hann
+    have post := infer_spec ctx fuel t0 [] St.empty t' T st hi inv_empty cb_empty (by intro B hB; cases hB)
     split at h
     · cases h
     · rename_i hun
@@ -104,7 +157,7 @@ theorem typeInfer_sound {ctx : Ctx} {fuel : Nat} {t t'' : Skel} (h : typeInfer c
         obtain ⟨linv, hexit⟩ := finalLoop_inv (uf := st.uf) [] fuel st.uf τ hl (LoopInv.init st.uf)
         have hno : ∀ j, j < τ.length → (τ.getD j (Ty.int j)).NoInt := fun j hj => noInt_of_exit (hexit j hj)
         have hsol : Solves τ st.uf := loop_solves post.inv.ufb linv hno
-        refine ⟨⟨_, by simpa using post.typ τ hsol⟩, ⟨_, _, post.pre.respects hctx τ hann⟩, ?_⟩
+        refine ⟨⟨_, by simpa using post.typ τ hsol⟩, ⟨_, _, Respects.of_applyDefs h0 (post.pre.respects τ)⟩, ?_⟩
         apply BoundedS.fullyTyped hno
         rw [linv.1]
         exact post.sb
